@@ -125,6 +125,20 @@ def rule_d(prog, chk, floor_n, rule="C05d", only_files=None):
     chk.extra[rule + "_loop_dependent_tests"] = nd
 
 
+def positive_control(chk, rule, tier):
+    """the rule flags witness/skip_control.cpp::skip_control_break and nothing else there"""
+    from report import Check
+    d = extract([os.path.join(facts.WITNESS, "skip_control.cpp")], "skipctl-" + rule + "-" + tier)
+    cprog = Program().load_dir(d)
+    ctl = Check(rule + "-control", tier, "positive control")
+    rule_d(cprog, ctl, 0, rule=rule)
+    flagged = [o for o in ctl.obs if o["verdict"] == "violation"]
+    ok = len(flagged) == 1 and "skip_control_break" in flagged[0]["instance"] and len(ctl.obs) == 1
+    chk.ob(rule, "positive control: the `break` loop of witness/skip_control.cpp is reported, the `continue` loop is not", "witness/skip_control.cpp", ok,
+           detail=None if ok else "the rule no longer recognises its control unit (%d obligations, %d flagged)" % (len(ctl.obs), len(flagged)),
+           key=rule + "|control")
+
+
 def units_with_pattern():
     pat = re.compile(r"FFFF\s*\(")
     out = []
